@@ -26,7 +26,7 @@ SCALE = 1024          # coefficient tokens handed to the Lean model: coef * SCAL
 SEG_LETTERS = set('CLOVFGJSbrkKxd')
 INV_OPC = {v: k for k, v in nlgen.OPC.items()}
 VARIADIC = ('sum', 'min', 'max')
-N_THEOREMS = 38
+N_THEOREMS = 42
 # vptr excluded: mp's CRTP base constructors downcast `this` before the derived object exists (flat/converter.h:51),
 # which UBSan's vptr check reports on every run; unrelated to this property
 SAN_FLAGS = ('-O1', '-g', '-fsanitize=address,undefined', '-fno-sanitize=vptr', '-fno-sanitize-recover=all')
@@ -1030,6 +1030,7 @@ OBLIGATION_ORACLE = {
     'C12_gen_caseO_guard': r'select:|run:abnormal', 'C12_gen_segment_slots': r'select:|run:abnormal', 'C12_gen_SetObjNames': r'name:',
     'C12_gen_skel_caseO': r'select:|run:abnormal', 'C12_gen_skel_caseG': r'select:|run:abnormal', 'C12_gen_skel_delivery': r'select:|echo:',
     'C12_gen_skel_SetObjNames': r'name:',
+    'C12_gen_skel_Convert_objective': r'select:',
 }
 
 
@@ -1103,6 +1104,25 @@ def gen_crosscheck(ck, drv, trdir, cov=False):
         a, h, l = lst[0]
         ck.add_violation('gen:%s-differs' % fn, 'generated Lean definition %s%s = "%s" but the compiled function gives "%s" (%d grid points differ): translator/CSem no longer describe the code' % (fn, a, l, h, len(lst)),
                          {'function': fn, 'inputs': a, 'compiled': h, 'generated': l, 'more': [str(t) for t in lst[1:5]], 'correspondence': 'drv_c12 F-lines vs harness/h_objfilter.cc'}, found_input=False)
+    # the hand model of LinTerms::sort_terms (not translatable: std::map) against the compiled function on random term lists
+    trng = nlgen.Rng(ck.seed * 7919 + 5)
+    tl, th = [], []
+    for _ in range(400):
+        n = trng.below(9)
+        nv = trng.rint(1, 5)
+        terms = [(trng.below(nv), trng.choice([0, 0, 1, -1, 2, -2, 3, 5, -5, 7])) for _ in range(n)]
+        tl.append('T %d %s' % (n, ' '.join('%d %d' % t for t in terms)))
+        th.append('sort_terms ' + ' '.join('%d %d' % t for t in terms))
+    pt_h = subprocess.run([hexe], input='\n'.join(th) + '\n', capture_output=True, text=True).stdout.split('\n')
+    pt_l = subprocess.run([drv], input='\n'.join(tl) + '\n', capture_output=True, text=True).stdout.split('\n')
+    nbad = 0
+    for a, h, l in zip(th, pt_h, pt_l):
+        if h != l:
+            nbad += 1
+            ck.add_violation('corr:sort_terms', 'model sortTerms gives "%s", LinTerms::sort_terms gives "%s" for %s' % (l, h, a),
+                             {'input': a, 'compiled': h, 'model': l, 'correspondence': 'drv_c12 T-lines vs harness/h_objfilter.cc sort_terms'}, found_input=False)
+    ck.cov['sort_terms_lists_compared'] = len(th)
+    ck.log('model of LinTerms::sort_terms compared with the compiled function on %d random term lists, %d differ' % (len(th), nbad))
     ck.cov['generated_defs'] = len(sig)
     ck.cov['generated_defs_grid_points'] = len(meta)
     ck.log('%d generated definitions cross-checked with the compiled functions on %d grid points, %d differ' % (len(sig), len(meta), sum(len(v) for v in bad.values())))
